@@ -2,9 +2,10 @@
 # Model of `deephyper/stopper/*` driven through `RunningJob.record` / `RunningJob.stopped`
 
 Files mirrored: `_stopper.py` (base `Stopper.observe/stop`), `_asha_stopper.py`
-(`SuccessiveHalvingStopper`), `_median_stopper.py` (`MedianStopper`, **as it is after the fix
-"advance the rung at every decision budget"**; the pre-fix `stop` is kept as `medianStopLegacy`
-for the regression witness), `_const_stopper.py`, `_idle_stopper.py`, and the two lines of
+(`SuccessiveHalvingStopper`), `_median_stopper.py` (`MedianStopper`, **as it is after the fixes
+"advance the rung at every decision budget" and "an undefined median falls back to the lower middle
+value"**; the two earlier states of `stop` are kept as `medianDecideLegacy` / `medianDecideNan`, selected
+by `Variant`, for the regression witnesses), `_const_stopper.py`, `_idle_stopper.py`, and the two lines of
 `evaluator/_job.py` that forward `record → stopper.observe`, `stopped → stopper.stop`.
 
 A search owns one storage; every job of the search has a metadata dict in it and a private
@@ -17,7 +18,12 @@ the protocol-level scheduler `protoStep`.
 
 Numbers: budgets / steps / `min_steps` / `reduction_factor` / `min_early_stopping_rate` /
 `interval_steps` are naturals (the property's quantifier only uses integers), objectives are
-either a number (`Rat`, exact image of the Python float) or a non-`Number` (failure string).
+either a number or a non-`Number` (failure string).  A number is a Python float that has an order:
+a rational (`ERat.fin`, the exact image of a finite float) or one of the two infinities (`-inf` is what a
+diverged run reports as `-loss`), ordered `-inf < finite < +inf` as the floats are (`ERat`).  `nan` has
+no order ("at least as good as" is undefined for it) and is outside the model; the one place where the
+code's arithmetic can *produce* a `nan` from ordered inputs — `np.median` averaging `-inf` and `+inf` — is
+modelled (`ERat.mean … = none`).
 Metadata keys are structured (`_completed`, `_completed_rung_<r>`); that the textual rendering of
 `<r>` is injective is part of C13 (`Nat.repr`).
 
@@ -26,9 +32,51 @@ Core Lean only (no imports).
 
 namespace DH.Stopper
 
+/-- a Python float that has an order: `-inf`, a finite value (exact rational), `+inf` -/
+inductive ERat where
+  | negInf
+  | fin (q : Rat)
+  | posInf
+  deriving DecidableEq, Repr, Inhabited
+
+namespace ERat
+
+/-- float `a <= b` -/
+def leB : ERat → ERat → Bool
+  | negInf, _ => true
+  | _, posInf => true
+  | fin a, fin b => decide (a ≤ b)
+  | _, _ => false
+
+instance : LE ERat := ⟨fun a b => leB a b = true⟩
+/-- float `a < b` (for ordered floats: not `b <= a`) -/
+instance : LT ERat := ⟨fun a b => leB b a = false⟩
+instance (a b : ERat) : Decidable (a ≤ b) := inferInstanceAs (Decidable (leB a b = true))
+instance (a b : ERat) : Decidable (a < b) := inferInstanceAs (Decidable (leB b a = false))
+
+/-- float `x + epsilon` with a finite `epsilon`: the infinities absorb it -/
+def addFin : ERat → Rat → ERat
+  | fin a, e => fin (a + e)
+  | negInf, _ => negInf
+  | posInf, _ => posInf
+
+/-- float `(a + b) / 2` (what `np.median` does with the two middle values); `none` = `nan` (`-inf + inf`) -/
+def mean : ERat → ERat → Option ERat
+  | fin a, fin b => some (fin ((a + b) / 2))
+  | negInf, posInf => none
+  | posInf, negInf => none
+  | negInf, _ => some negInf
+  | _, negInf => some negInf
+  | posInf, _ => some posInf
+  | _, posInf => some posInf
+
+instance {n : Nat} : OfNat ERat n := ⟨fin (OfNat.ofNat n)⟩
+
+end ERat
+
 /-- an objective as the stopper sees it: `isinstance(objective, Number)` or not -/
 inductive Obj where
-  | num (q : Rat)
+  | num (q : ERat)
   | fail (tag : String)
   deriving DecidableEq, Repr, Inhabited
 
@@ -98,37 +146,48 @@ inductive Err where
 def loadAll (s : Sys) (k : MKey) : List MVal := s.filterMap (fun r => mget k r.md)
 
 /-- `[v for v in values if isinstance(v, Number)]` -/
-def numbers (l : List MVal) : List Rat :=
+def numbers (l : List MVal) : List ERat :=
   l.filterMap (fun v => match v with
     | .obj (.num q) => some q
     | _ => none)
 
 /-- `_get_competiting_objectives()` for rung `r` -/
-def competitors (s : Sys) (r : Nat) : List Rat := numbers (loadAll s (.rung r))
+def competitors (s : Sys) (r : Nat) : List ERat := numbers (loadAll s (.rung r))
 
 /-- `_num_fully_completed()` : `sum(int(s) for s in stopped)` -/
 def numFullyCompleted (s : Sys) : Nat :=
   (loadAll s .completed).countP (fun v => v == .bool true)
 
 /-- `np.sort` (insertion sort: structural, so that concrete runs reduce in the kernel) -/
-def insertAsc (x : Rat) : List Rat → List Rat
+def insertAsc (x : ERat) : List ERat → List ERat
   | [] => [x]
   | y :: ys => if x ≤ y then x :: y :: ys else y :: insertAsc x ys
 
-def sortAsc (l : List Rat) : List Rat := l.foldr insertAsc []
+def sortAsc (l : List ERat) : List ERat := l.foldr insertAsc []
 
 /-- Python `a[-k]` -/
-def negIdx (l : List Rat) (k : Nat) : Option Rat :=
+def negIdx (l : List ERat) (k : Nat) : Option ERat :=
   if 1 ≤ k ∧ k ≤ l.length then l[l.length - k]? else none
 
-/-- `np.median` of a sorted array (`none` = `nan` for the empty array) -/
-def medianSorted (l : List Rat) : Option Rat :=
+/-- `np.median` of a sorted array (`none` = `nan`: the empty array, or the two middle values are `-inf` and `+inf`) -/
+def medianSorted (l : List ERat) : Option ERat :=
   let n := l.length
   if n = 0 then none
   else if n % 2 = 1 then l[n / 2]?
   else match l[n / 2 - 1]?, l[n / 2]? with
-    | some a, some b => some ((a + b) / 2)
+    | some a, some b => ERat.mean a b
     | _, _ => none
+
+/-- `competing_objectives[(num_competing - 1) // 2]` guarded by `num_competing > 0`: the lower of the two middle values -/
+def lowerMiddle (l : List ERat) : Option ERat :=
+  if l.length = 0 then none else l[(l.length - 1) / 2]?
+
+/-- the threshold of the median rule **after the fix** "an undefined median falls back to the lower middle value":
+`np.median`, and when that is `nan` although there are competitors, the lower middle one -/
+def medianThreshold (l : List ERat) : Option ERat :=
+  match medianSorted l with
+  | some m => some m
+  | none => lowerMiddle l
 
 /-! ### `observe` -/
 
@@ -205,7 +264,7 @@ def bumpRung (jr : JobRec) : JobRec := { jr with js := { jr.js with rung := jr.j
 
 /-- the part of `SuccessiveHalvingStopper.stop` after `super().stop()` returned False;
 `s` is the storage *after* the base class wrote `_completed`, `q`/`b` the last observation -/
-def shaDecide (ms rf mesr mc mfc : Nat) (eps : Rat) (s : Sys) (jr : JobRec) (b : Nat) (q : Rat) :
+def shaDecide (ms rf mesr mc mfc : Nat) (eps : Rat) (s : Sys) (jr : JobRec) (b : Nat) (q : ERat) :
     JobRec × Except Err Bool :=
   if (b : Int) < shaHB ms rf mesr jr.js.rung then (jr, .ok false)
   else if 0 < mfc ∧ numFullyCompleted s < mfc then (bumpRung jr, .ok false)
@@ -219,11 +278,26 @@ def shaDecide (ms rf mesr mc mfc : Nat) (eps : Rat) (s : Sys) (jr : JobRec) (b :
       match negIdx comp k with
       | none => (jr, .error .indexError)
       | some top =>
-        if top ≤ q + eps then (bumpRung jr, .ok false) else (jr, .ok true)
+        if top ≤ q.addFin eps then (bumpRung jr, .ok false) else (jr, .ok true)
 
-/-- the part of `MedianStopper.stop` after `super().stop()` returned False (fixed code:
-the rung advances at every decision budget that does not stop the job) -/
-def medianDecide (ms mc iv : Nat) (eps : Rat) (s : Sys) (jr : JobRec) (b : Nat) (q : Rat) :
+/-- the part of `MedianStopper.stop` after `super().stop()` returned False (fixed code: the rung advances at
+every decision budget that does not stop the job; an undefined median — the two middle values are `-inf` and
+`+inf` — falls back to the lower middle value) -/
+def medianDecide (ms mc iv : Nat) (eps : Rat) (s : Sys) (jr : JobRec) (b : Nat) (q : ERat) :
+    JobRec × Except Err Bool :=
+  match medianIsHalting ms iv b with
+  | none => (jr, .error .zeroDivision)
+  | some false => (jr, .ok false)
+  | some true =>
+    let comp := sortAsc (competitors s jr.js.rung)
+    if comp.length < mc then (bumpRung jr, .ok false)
+    else match medianThreshold comp with
+      | none => (jr, .ok true)          -- median of nothing is nan: `x >= nan` is False
+      | some med => if med ≤ q.addFin eps then (bumpRung jr, .ok false) else (jr, .ok true)
+
+/-- `MedianStopper.stop` before the fix "an undefined median falls back to the lower middle value":
+`x >= nan` is False, so every evaluation judged against the middle values `-inf`, `+inf` was stopped -/
+def medianDecideNan (ms mc iv : Nat) (eps : Rat) (s : Sys) (jr : JobRec) (b : Nat) (q : ERat) :
     JobRec × Except Err Bool :=
   match medianIsHalting ms iv b with
   | none => (jr, .error .zeroDivision)
@@ -232,11 +306,11 @@ def medianDecide (ms mc iv : Nat) (eps : Rat) (s : Sys) (jr : JobRec) (b : Nat) 
     let comp := sortAsc (competitors s jr.js.rung)
     if comp.length < mc then (bumpRung jr, .ok false)
     else match medianSorted comp with
-      | none => (jr, .ok true)          -- median of nothing is nan: `x >= nan` is False
-      | some med => if med ≤ q + eps then (bumpRung jr, .ok false) else (jr, .ok true)
+      | none => (jr, .ok true)
+      | some med => if med ≤ q.addFin eps then (bumpRung jr, .ok false) else (jr, .ok true)
 
-/-- pre-fix `MedianStopper.stop`: with too few competitors the rung did not advance -/
-def medianDecideLegacy (ms mc iv : Nat) (eps : Rat) (s : Sys) (jr : JobRec) (b : Nat) (q : Rat) :
+/-- the pinned `MedianStopper.stop` (before both fixes): with too few competitors the rung did not advance -/
+def medianDecideLegacy (ms mc iv : Nat) (eps : Rat) (s : Sys) (jr : JobRec) (b : Nat) (q : ERat) :
     JobRec × Except Err Bool :=
   match medianIsHalting ms iv b with
   | none => (jr, .error .zeroDivision)
@@ -246,19 +320,30 @@ def medianDecideLegacy (ms mc iv : Nat) (eps : Rat) (s : Sys) (jr : JobRec) (b :
     if comp.length < mc then (jr, .ok false)
     else match medianSorted comp with
       | none => (jr, .ok true)
-      | some med => if med ≤ q + eps then (bumpRung jr, .ok false) else (jr, .ok true)
+      | some med => if med ≤ q.addFin eps then (bumpRung jr, .ok false) else (jr, .ok true)
+
+/-- which `MedianStopper.stop` is run: the repaired code (what the theorems are about), or one of the two
+earlier states of the code kept for the regression witnesses -/
+inductive Variant where
+  | fixed     -- the code after both repairs
+  | preRung   -- the pinned code: the rung does not advance with too few competitors (and `nan` median stops)
+  | preNan    -- the rung fix applied, the `nan` median still stops
+  deriving DecidableEq, Repr
 
 /-- the subclass part of `stop`, given the last observation -/
-def decide' (legacy : Bool) (P : Params) (s : Sys) (jr : JobRec) (b : Nat) (q : Rat) : JobRec × Except Err Bool :=
+def decide' (v : Variant) (P : Params) (s : Sys) (jr : JobRec) (b : Nat) (q : ERat) : JobRec × Except Err Bool :=
   match P.kind with
   | .idle => (jr, .ok false)
   | .const stopStep => (jr, .ok (decide (stopStep ≤ b)))
   | .sha ms rf mesr mc mfc eps => shaDecide ms rf mesr mc mfc eps s jr b q
   | .median ms mc iv eps =>
-    if legacy then medianDecideLegacy ms mc iv eps s jr b q else medianDecide ms mc iv eps s jr b q
+    match v with
+    | .fixed => medianDecide ms mc iv eps s jr b q
+    | .preRung => medianDecideLegacy ms mc iv eps s jr b q
+    | .preNan => medianDecideNan ms mc iv eps s jr b q
 
-/-- `RunningJob.stopped()` of job `j` (`legacy = true` : pre-fix median rule) -/
-def stoppedGen (legacy : Bool) (P : Params) (s : Sys) (j : Nat) : Sys × Except Err Bool :=
+/-- `RunningJob.stopped()` of job `j` -/
+def stoppedGen (legacy : Variant) (P : Params) (s : Sys) (j : Nat) : Sys × Except Err Bool :=
   match s[j]? with
   | none => (s, .error .keyError)
   | some jr =>
@@ -273,7 +358,7 @@ def stoppedGen (legacy : Bool) (P : Params) (s : Sys) (j : Nat) : Sys × Except 
         (s1.set j jr2, r)
       | _, _ => (s.set j jr1, .error .indexError)   -- unreachable (baseStop returned False)
 
-def stopped (P : Params) (s : Sys) (j : Nat) : Sys × Except Err Bool := stoppedGen false P s j
+def stopped (P : Params) (s : Sys) (j : Nat) : Sys × Except Err Bool := stoppedGen .fixed P s j
 
 /-- `storage.create_new_job` + `Job.create_running_job(stopper)` -/
 def addJob (s : Sys) : Sys := s ++ [({} : JobRec)]
@@ -294,7 +379,7 @@ def markHalted (s : Sys) (j : Nat) : Sys :=
   | none => s
   | some jr => s.set j { jr with halted := true }
 
-def protoStepGen (legacy : Bool) (P : Params) (s : Sys) : Ev → Sys × Dec
+def protoStepGen (legacy : Variant) (P : Params) (s : Sys) : Ev → Sys × Dec
   | .add => (addJob s, none)
   | .step j o =>
     match s[j]? with
@@ -309,17 +394,17 @@ def protoStepGen (legacy : Bool) (P : Params) (s : Sys) : Ev → Sys × Dec
           | (s2, .ok false) => (s2, some (.ok false))
           | (s2, r) => (markHalted s2 j, some r)                  -- told to stop (or `stopped` raised)
 
-def protoStep (P : Params) (s : Sys) (e : Ev) : Sys × Dec := protoStepGen false P s e
+def protoStep (P : Params) (s : Sys) (e : Ev) : Sys × Dec := protoStepGen .fixed P s e
 
 /-- run a whole schedule; returns the final system and the decisions in order -/
-def protoRunGen (legacy : Bool) (P : Params) : Sys → List Ev → Sys × List Dec
+def protoRunGen (legacy : Variant) (P : Params) : Sys → List Ev → Sys × List Dec
   | s, [] => (s, [])
   | s, e :: es =>
     let (s1, d) := protoStepGen legacy P s e
     let (s2, ds) := protoRunGen legacy P s1 es
     (s2, d :: ds)
 
-def protoRun (P : Params) (s : Sys) (es : List Ev) : Sys × List Dec := protoRunGen false P s es
+def protoRun (P : Params) (s : Sys) (es : List Ev) : Sys × List Dec := protoRunGen .fixed P s es
 
 /-- the state after a schedule -/
 def reach (P : Params) (es : List Ev) : Sys := (protoRun P [] es).1
@@ -346,11 +431,11 @@ def Obj.isFail : Obj → Bool
 def failedIn (pre : List TEv) (j : Nat) : Bool := pre.any (fun e => e.job == j && e.obj.isFail)
 
 /-- the numbers other evaluations recorded at budget `b` in the earlier events `pre` -/
-def othersAt (pre : List TEv) (j b : Nat) : List Rat :=
+def othersAt (pre : List TEv) (j b : Nat) : List ERat :=
   pre.filterMap (fun e => if e.job ≠ j ∧ e.step = b then (match e.obj with | .num q => some q | .fail _ => none) else none)
 
 /-- … leaving out the evaluations that failed since (successive halving forgets their rungs) -/
-def liveOthersAt (pre : List TEv) (j b : Nat) : List Rat :=
+def liveOthersAt (pre : List TEv) (j b : Nat) : List ERat :=
   pre.filterMap (fun e => if e.job ≠ j ∧ e.step = b ∧ failedIn pre e.job = false then
     (match e.obj with | .num q => some q | .fail _ => none) else none)
 
@@ -367,7 +452,7 @@ def Params.topkRf (P : Params) : Option Nat :=
   | _ => none
 
 /-- among `n = |others| + 1` competitors at least `max 1 (n / rf)` are better than `q` -/
-def OutsideTop (rf : Nat) (others : List Rat) (q : Rat) : Prop :=
+def OutsideTop (rf : Nat) (others : List ERat) (q : ERat) : Prop :=
   max 1 ((others.length + 1) / rf) ≤ others.countP (fun v => decide (q < v))
 
 /-- the clauses for one event `e` that happened after the events `pre` -/
@@ -383,7 +468,7 @@ structure EvSpec (P : Params) (pre : List TEv) (e : TEv) : Prop where
 def TraceSpec (P : Params) (t : List TEv) : Prop :=
   ∀ pre e post, t = pre ++ e :: post → EvSpec P pre e
 
-def outsideTop (rf : Nat) (others : List Rat) (q : Rat) : Bool :=
+def outsideTop (rf : Nat) (others : List ERat) (q : ERat) : Bool :=
   decide (max 1 ((others.length + 1) / rf) ≤ others.countP (fun v => decide (q < v)))
 
 def evOK (P : Params) (pre : List TEv) (e : TEv) : Bool :=
